@@ -47,6 +47,7 @@ EXC_PARENTS = {
     'AssertionError': 'Exception', 'NameError': 'Exception', 'ZeroDivisionError': 'ArithmeticError',
     'ArithmeticError': 'Exception', 'ArgumentTypeError': 'Exception', 'NotImplementedError': 'RuntimeError',
     'RuntimeError': 'Exception', 'Exception': 'BaseException', 'UnicodeDecodeError': 'ValueError',
+    'UnboundLocalError': 'NameError',
 }
 
 
@@ -134,16 +135,24 @@ class Env:
         while e is not None:
             if name in e.vars:
                 return e.vars[name]
+            if e.lazy_has(name):
+                return e.lazy_get(name)
             e = e.parent
         raise KeyError(name)
 
     def has(self, name):
         e = self
         while e is not None:
-            if name in e.vars:
+            if name in e.vars or e.lazy_has(name):
                 return True
             e = e.parent
         return False
+
+    def lazy_has(self, name):
+        return False
+
+    def lazy_get(self, name):
+        raise KeyError(name)
 
 
 class LoopSpec:
@@ -650,6 +659,8 @@ class Engine:
                 return self.builtins[node.id]
             if self.spec:
                 raise EngineError('unknown name %r in spec' % node.id)
+            if env.has('__locals__') and node.id in env.lookup('__locals__'):
+                raise PyExc('UnboundLocalError', (node.id,), getattr(node, 'lineno', self.line))
             raise EngineError('unbound name %r (line %s)' % (node.id, getattr(node, 'lineno', '?')))
 
     def eval_Tuple(self, node, env):
@@ -944,6 +955,7 @@ class Engine:
         env = Env(clo.env, vals)
         if isinstance(clo.node, ast.Lambda):
             return self.eval(clo.node.body, env)
+        env.vars['__locals__'] = assigned_names(clo.node.body)
         saved = self.loop_ctr, self.loop_specs
         # inlined callees use their own contract's loop specs if registered as inline specs
         ic = self.inline_specs.get(clo.qualname) if hasattr(self, 'inline_specs') else None
